@@ -152,6 +152,8 @@ class Interp:
                     env[v["name"]] = _wrap(val, v.get("ty"))
                 elif "arr_n" in v:
                     env[v["name"]] = {}
+                elif v.get("ty", "").startswith("struct ") and not v["ty"].endswith("*"):
+                    env[v["name"]] = {}
                 else:
                     env[v["name"]] = OPAQUE
         elif k == "if":
@@ -310,6 +312,8 @@ class Interp:
                 if isinstance(b, Ptr):
                     v = b.read(0)
                     return v - 256 if (e.get("ty") == "char" and v >= 128) else v
+                if isinstance(b, dict) and "__deref__" in b:
+                    return b["__deref__"]
                 return OPAQUE
             if op in ("post++", "pre++", "post--", "pre--"):
                 return self._incdec(f, e, env, depth)
